@@ -399,6 +399,17 @@ def build_c18(rng, tier):
     sc = lp_base(rng, inst, opts, ops=ops, policy='uniform')
     if vary:
         sc['backend']['coherent_tl'] = True
+        # a solve other than the first may also die at its k-th underlying
+        # solve; the caller gets PuLP's exception and solves again later
+        ce = {}
+        n_s = 0
+        for o in ops:
+            if o[0] == 'solve':
+                n_s += 1
+                if n_s >= 2 and rng.random() < 0.3:
+                    ce[str(n_s)] = rng.choice([1, 1, 2, 3, 4])
+        if ce:
+            sc['backend']['crash_epochs'] = ce
     return sc
 
 
